@@ -11,6 +11,7 @@ func (c *Ctx) Run(job, tier string) {
 	case "iso":
 		c.RunIso()
 		c.RunCfgSeq()
+		c.RunReadd()
 	case "race":
 		c.RunRace(tier)
 	default:
@@ -43,6 +44,8 @@ func (c *Ctx) Replay(job, wit string, capS int) error {
 			return nil
 		}
 		c.checkIso(base, sc.Iso.Mut, sc.Iso.Point)
+	case sc.Mode == "readd":
+		c.checkReadd(sc.Readd)
 	case sc.Mode == "cfgseq":
 		c.cfgSeq(sc.Jobs[0])
 	case sc.Mode == "race":
